@@ -89,78 +89,190 @@ Proof.
     intros o x P. specialize (P1 o x P). destruct o; simpl in *; try apply in_or_app; try right; try exact P1; exact I.
 Qed.
 
-Definition sound_for (n0 : nat) (h0 : heap) (p : prog) : Prop :=
-  forall s o s', pexec p s o s' -> forall g a r,
+(* the heap grew, nothing that existed changed: everything known about the caller's objects still holds *)
+Lemma inv_extend n0 h0 g a e h h' :
+  Inv n0 h0 g a e h -> List.length h <= List.length h' ->
+  (forall l, l < List.length h -> nth_error h' l = nth_error h l) ->
+  Inv n0 h0 g a e h'.
+Proof.
+  intros I Hlen Hsame. destruct I as [Ienv Irng Ifld Iinj Inext Ifacts Icoll [Ifr1 Ifr2]].
+  constructor.
+  - exact Ienv.
+  - intros id l H. specialize (Irng _ _ H). lia.
+  - intros id f id' l fs l' Hf Hg Hn Ha. pose proof (Irng _ _ Hg) as R.
+    rewrite Hsame in Hn by lia. apply (Ifld _ _ _ _ _ _ Hf Hg Hn Ha).
+  - exact Iinj.
+  - exact Inext.
+  - exact Ifacts.
+  - intros id idx l Hf Hg. destruct (Icoll _ _ _ Hf Hg) as [ls [Hn Hb]]. pose proof (Irng _ _ Hg) as R.
+    exists ls. split; [rewrite Hsame by lia; exact Hn|]. intros le Hle. specialize (Hb le Hle). lia.
+  - split; [lia|]. intros l Hl. rewrite Hsame by lia. apply Ifr2. exact Hl.
+Qed.
+
+Section Sound.
+Variable funs : list prog.
+(* every function of the table passes the check on its own, from the empty abstract state *)
+Hypothesis AllSafe : forall f body, nth_error funs f = Some body -> exists r, acheck body init_astate = Some r.
+
+Definition sound_at (p : prog) (s : env * heap) (o : out) (s' : env * heap) : Prop :=
+  forall n0 h0 g a r,
     Inv n0 h0 g a (fst s) (snd s) -> acheck p a = Some r ->
     exists g' a', Inv n0 h0 g' a' (fst s') (snd s') /\ post o r a'.
 
-Lemma loop_sound n0 h0 b : sound_for n0 h0 b ->
-  forall s o s', pexec (PLoop b) s o s' -> forall g hd rb,
+Definition loop_sound_at (p : prog) (s : env * heap) (o : out) (s' : env * heap) : Prop :=
+  forall b, p = PLoop b -> forall n0 h0 g hd rb,
     Inv n0 h0 g hd (fst s) (snd s) -> head_wf hd = true -> acheck b hd = Some rb ->
     forallb (subenv hd) (r_norm rb ++ r_cont rb) = true ->
     exists g' a', Inv n0 h0 g' a' (fst s') (snd s')
                   /\ post o {| r_norm := hd :: r_brk rb; r_brk := []; r_cont := [] |} a'.
+
+(* from the loop statement to the statement about acheck (PLoop b) *)
+Lemma loop_to_sound b s o s' : loop_sound_at (PLoop b) s o s' -> sound_at (PLoop b) s o s'.
 Proof.
-  intros Hb s o s' H. remember (PLoop b) as p eqn:Ep.
-  induction H as [ | | | | | | b0 s | b0 s s1 s2 o o' Hbody _ Hoc Hrest IHrest | b0 s s1 Hbody _ | b0 s s1 Hbody _ | | | ];
-    try discriminate Ep; inversion Ep; subst b0; intros g hd rb I W A F.
-  - exists g, hd. split; [exact I|]. simpl. left. reflexivity.
-  - destruct (Hb _ _ _ Hbody g hd rb I A) as [g1 [a1 [I1 P1]]].
-    assert (S1 : subenv hd a1 = true).
-    { rewrite forallb_forall in F. apply F. apply in_or_app. destruct Hoc as [-> | ->]; simpl in P1; [left|right]; exact P1. }
-    pose proof (inv_forget _ _ _ _ _ _ hd I1 S1 W) as I2.
-    apply (IHrest eq_refl _ hd rb I2 W A F).
-  - destruct (Hb _ _ _ Hbody g hd rb I A) as [g1 [a1 [I1 P1]]]. simpl in P1.
-    exists g1, a1. split; [exact I1|]. simpl. right. exact P1.
-  - destruct (Hb _ _ _ Hbody g hd rb I A) as [g1 [a1 [I1 P1]]].
-    exists g1, a1. split; [exact I1|]. exact Logic.I.
+  intros HL n0 h0 g a r I A. simpl in A. remember (head_state (assigned b) a) as hd eqn:Ehd.
+  destruct (subenv hd a && head_wf hd) eqn:C; [|discriminate A]. apply andb_true_iff in C. destruct C as [S W].
+  destruct (acheck b hd) as [rb|] eqn:Ab; [|discriminate A].
+  destruct (forallb (subenv hd) (r_norm rb ++ r_cont rb)) eqn:F; [|discriminate A]. inversion A; subst r; clear A.
+  pose proof (inv_forget _ _ _ _ _ _ hd I S W) as I0.
+  apply (HL b eq_refl n0 h0 _ hd rb I0 W Ab F).
 Qed.
 
-Lemma acheck_sound n0 h0 : forall p, sound_for n0 h0 p.
+(* induction on the EXECUTION (a callee's body is not a part of the caller's program text) *)
+Lemma acheck_sound : forall p s o s', pexec funs p s o s' -> sound_at p s o s' /\ loop_sound_at p s o s'.
 Proof.
-  induction p as [ | st | p IHp q IHq | p IHp q IHq | b IHb | | | ]; intros s o s' H g a r I A.
-  - inversion H; subst. simpl in A. inversion A; subst. exists g, a. split; [exact I|]. simpl. left. reflexivity.
-  - inversion H as [|st0 s0 s0' Hstep| | | | | | | | | | |]; subst. simpl in A.
+  intros p s o s' H.
+  induction H as
+    [ s
+    | st s s' Hstep
+    | p q s s1 s2 o Hp IHp Hq IHq
+    | p q s s1 o Hne Hp IHp
+    | p q s o s' Hp IHp
+    | p q s o s' Hq IHq
+    | b s
+    | b s s1 s2 o o' Hb IHb Hoc Hrest IHrest
+    | b s s1 Hb IHb
+    | b s s1 Hb IHb
+    | s | s | s
+    | fs s
+    | fs f body e h ec oc ec' h' o h'' Hin Hnth Hbody IHbody Hrest IHrest
+    | fs f body e h ec ec' h' Hin Hnth Hbody IHbody ].
+  - (* skip *) split; [|intros b Eb; discriminate Eb].
+    intros n0 h0 g a r I A. simpl in A. inversion A; subst. exists g, a. split; [exact I|]. simpl. left. reflexivity.
+  - (* statement *) split; [|intros b Eb; discriminate Eb].
+    intros n0 h0 g a r I A. simpl in A.
     destruct (astep a st) as [a'|] eqn:As; [|discriminate A]. inversion A; subst.
     destruct s as [e h], s' as [e' h']. simpl in *.
     destruct (step_sound _ _ _ _ _ _ _ _ _ _ I Hstep As) as [g' I'].
     exists g', a'. split; [exact I'|]. simpl. left. reflexivity.
-  - simpl in A. destruct (acheck p a) as [r1|] eqn:A1; [|discriminate A].
+  - (* sequence *) split; [|intros b Eb; discriminate Eb].
+    intros n0 h0 g a r I A. simpl in A. destruct (acheck p a) as [r1|] eqn:A1; [|discriminate A].
     destruct (all_res (acheck q) (r_norm r1)) as [r2|] eqn:A2; [|discriminate A]. inversion A; subst; clear A.
-    inversion H as [| |p0 q0 s0 s1 s2 o0 Hp Hq|p0 q0 s0 s1 o0 Hne Hp| | | | | | | | |]; subst.
-    + destruct (IHp _ _ _ Hp g a r1 I A1) as [g1 [a1 [I1 P1]]]. simpl in P1.
-      destruct (all_res_in _ _ _ _ A2 P1) as [rq [Aq Pq]].
-      destruct (IHq _ _ _ Hq g1 a1 rq I1 Aq) as [g2 [a2 [I2 P2]]].
-      exists g2, a2. split; [exact I2|]. specialize (Pq _ _ P2).
-      destruct o; simpl in *; try apply in_or_app; try right; try exact Pq; exact Logic.I.
-    + destruct (IHp _ _ _ Hp g a r1 I A1) as [g1 [a1 [I1 P1]]].
-      exists g1, a1. split; [exact I1|].
-      destruct o; simpl in *; [contradiction Hne; reflexivity|apply in_or_app; left; exact P1|apply in_or_app; left; exact P1|exact Logic.I].
-  - simpl in A. destruct (acheck p a) as [r1|] eqn:A1; [|discriminate A].
+    destruct (proj1 IHp n0 h0 g a r1 I A1) as [g1 [a1 [I1 P1]]]. simpl in P1.
+    destruct (all_res_in _ _ _ _ A2 P1) as [rq [Aq Pq]].
+    destruct (proj1 IHq n0 h0 g1 a1 rq I1 Aq) as [g2 [a2 [I2 P2]]].
+    exists g2, a2. split; [exact I2|]. specialize (Pq _ _ P2).
+    destruct o; simpl in *; try apply in_or_app; try right; try exact Pq; exact Logic.I.
+  - (* sequence left early *) split; [|intros b Eb; discriminate Eb].
+    intros n0 h0 g a r I A. simpl in A. destruct (acheck p a) as [r1|] eqn:A1; [|discriminate A].
+    destruct (all_res (acheck q) (r_norm r1)) as [r2|] eqn:A2; [|discriminate A]. inversion A; subst; clear A.
+    destruct (proj1 IHp n0 h0 g a r1 I A1) as [g1 [a1 [I1 P1]]].
+    exists g1, a1. split; [exact I1|].
+    destruct o; simpl in *; [contradiction Hne; reflexivity|apply in_or_app; left; exact P1|apply in_or_app; left; exact P1|exact Logic.I].
+  - (* left branch *) split; [|intros b Eb; discriminate Eb].
+    intros n0 h0 g a r I A. simpl in A. destruct (acheck p a) as [r1|] eqn:A1; [|discriminate A].
     destruct (acheck q a) as [r2|] eqn:A2; [|discriminate A]. inversion A; subst; clear A.
-    inversion H as [| | | |p0 q0 s0 o0 s0' Hp|p0 q0 s0 o0 s0' Hq| | | | | | |]; subst.
-    + destruct (IHp _ _ _ Hp g a r1 I A1) as [g1 [a1 [I1 P1]]]. exists g1, a1. split; [exact I1|].
-      destruct o; simpl in *; try apply in_or_app; try left; try exact P1; exact Logic.I.
-    + destruct (IHq _ _ _ Hq g a r2 I A2) as [g1 [a1 [I1 P1]]]. exists g1, a1. split; [exact I1|].
-      destruct o; simpl in *; try apply in_or_app; try right; try exact P1; exact Logic.I.
-  - simpl in A. remember (head_state (assigned b) a) as hd eqn:Ehd.
-    destruct (subenv hd a && head_wf hd) eqn:C; [|discriminate A]. apply andb_true_iff in C. destruct C as [S W].
-    destruct (acheck b hd) as [rb|] eqn:Ab; [|discriminate A].
-    destruct (forallb (subenv hd) (r_norm rb ++ r_cont rb)) eqn:F; [|discriminate A]. inversion A; subst r; clear A.
-    pose proof (inv_forget _ _ _ _ _ _ hd I S W) as I0.
-    apply (loop_sound n0 h0 b IHb _ _ _ H _ hd rb I0 W Ab F).
-  - inversion H; subst. simpl in A. inversion A; subst. exists g, a. split; [exact I|]. simpl. left. reflexivity.
-  - inversion H; subst. simpl in A. inversion A; subst. exists g, a. split; [exact I|]. simpl. left. reflexivity.
-  - inversion H; subst. exists g, a. split; [exact I|]. exact Logic.I.
+    destruct (proj1 IHp n0 h0 g a r1 I A1) as [g1 [a1 [I1 P1]]]. exists g1, a1. split; [exact I1|].
+    destruct o; simpl in *; try apply in_or_app; try left; try exact P1; exact Logic.I.
+  - (* right branch *) split; [|intros b Eb; discriminate Eb].
+    intros n0 h0 g a r I A. simpl in A. destruct (acheck p a) as [r1|] eqn:A1; [|discriminate A].
+    destruct (acheck q a) as [r2|] eqn:A2; [|discriminate A]. inversion A; subst; clear A.
+    destruct (proj1 IHq n0 h0 g a r2 I A2) as [g1 [a1 [I1 P1]]]. exists g1, a1. split; [exact I1|].
+    destruct o; simpl in *; try apply in_or_app; try right; try exact P1; exact Logic.I.
+  - (* loop: no further iteration *)
+    assert (HL : loop_sound_at (PLoop b) s ONormal s).
+    { intros b0 Eb n0 h0 g hd rb I W A F. exists g, hd. split; [exact I|]. simpl. left. reflexivity. }
+    split; [apply loop_to_sound; exact HL|exact HL].
+  - (* loop: one iteration, then the rest *)
+    assert (HL : loop_sound_at (PLoop b) s o' s2).
+    { intros b0 Eb n0 h0 g hd rb I W A F. inversion Eb; subst b0.
+      destruct (proj1 IHb n0 h0 g hd rb I A) as [g1 [a1 [I1 P1]]].
+      assert (S1 : subenv hd a1 = true).
+      { rewrite forallb_forall in F. apply F. apply in_or_app. destruct Hoc as [-> | ->]; simpl in P1; [left|right]; exact P1. }
+      pose proof (inv_forget _ _ _ _ _ _ hd I1 S1 W) as I2.
+      apply (proj2 IHrest b eq_refl n0 h0 _ hd rb I2 W A F). }
+    split; [apply loop_to_sound; exact HL|exact HL].
+  - (* loop left by break *)
+    assert (HL : loop_sound_at (PLoop b) s ONormal s1).
+    { intros b0 Eb n0 h0 g hd rb I W A F. inversion Eb; subst b0.
+      destruct (proj1 IHb n0 h0 g hd rb I A) as [g1 [a1 [I1 P1]]]. simpl in P1.
+      exists g1, a1. split; [exact I1|]. simpl. right. exact P1. }
+    split; [apply loop_to_sound; exact HL|exact HL].
+  - (* loop left by return / raise *)
+    assert (HL : loop_sound_at (PLoop b) s ORet s1).
+    { intros b0 Eb n0 h0 g hd rb I W A F. inversion Eb; subst b0.
+      destruct (proj1 IHb n0 h0 g hd rb I A) as [g1 [a1 [I1 P1]]].
+      exists g1, a1. split; [exact I1|]. exact Logic.I. }
+    split; [apply loop_to_sound; exact HL|exact HL].
+  - (* break *) split; [|intros b Eb; discriminate Eb].
+    intros n0 h0 g a r I A. simpl in A. inversion A; subst. exists g, a. split; [exact I|]. simpl. left. reflexivity.
+  - (* continue *) split; [|intros b Eb; discriminate Eb].
+    intros n0 h0 g a r I A. simpl in A. inversion A; subst. exists g, a. split; [exact I|]. simpl. left. reflexivity.
+  - (* return *) split; [|intros b Eb; discriminate Eb].
+    intros n0 h0 g a r I A. exists g, a. split; [exact I|]. exact Logic.I.
+  - (* no (further) call *) split; [|intros b Eb; discriminate Eb].
+    intros n0 h0 g a r I A. simpl in A. inversion A; subst. exists g, a. split; [exact I|]. simpl. left. reflexivity.
+  - (* a call: the callee leaves everything that existed when it was called as it was; then the rest *)
+    split; [|intros b Eb; discriminate Eb].
+    intros n0 h0 g a r I A. simpl in *.
+    destruct (AllSafe f body Hnth) as [rf Af].
+    destruct (proj1 IHbody (List.length h) h _ init_astate rf (inv_init ec h) Af) as [g' [a' [I' _]]]. simpl in I'.
+    destruct (i_frame _ _ _ _ _ _ I') as [Fl Fs].
+    assert (I1 : Inv n0 h0 g a e h').
+    { apply (inv_extend _ _ _ _ _ h h' I Fl). intros l Hl. apply Fs. exact Hl. }
+    apply (proj1 IHrest n0 h0 g a r I1 A).
+  - (* a call that raises *)
+    split; [|intros b Eb; discriminate Eb].
+    intros n0 h0 g a r I A. simpl in *.
+    destruct (AllSafe f body Hnth) as [rf Af].
+    destruct (proj1 IHbody (List.length h) h _ init_astate rf (inv_init ec h) Af) as [g' [a' [I' _]]]. simpl in I'.
+    destruct (i_frame _ _ _ _ _ _ I') as [Fl Fs].
+    exists g, a. split; [|exact Logic.I].
+    apply (inv_extend _ _ _ _ _ h h' I Fl). intros l Hl. apply Fs. exact Hl.
+Qed.
+End Sound.
+
+Lemma safe_table_all funs : safe_table funs = true ->
+  forall f body, nth_error funs f = Some body -> exists r, acheck body init_astate = Some r.
+Proof.
+  intros S f body Hn. unfold safe_table in S. rewrite forallb_forall in S.
+  specialize (S body (nth_error_In _ _ Hn)). apply andb_true_iff in S. destruct S as [S _].
+  unfold safe_prog in S. destruct (acheck body init_astate) as [r|]; [exists r; reflexivity|discriminate S].
 Qed.
 
-(* THE FRAME THEOREM for programs *)
+(* THE FRAME THEOREM for programs with calls: every function of a table that passes the check leaves, in every
+   execution - whichever branches are taken, however often the loops run, however deep the calls (recursion
+   included) - every pre-existing object exactly as it was *)
+Theorem safe_table_preserves_old_objects_proof : forall funs p e h o e' h',
+  safe_table funs = true -> In p funs -> pexec funs p (e, h) o (e', h') ->
+  List.length h <= List.length h' /\ forall l, l < List.length h -> nth_error h' l = nth_error h l.
+Proof.
+  intros funs p e h o e' h' S Hin X.
+  destruct (In_nth_error _ _ Hin) as [f Hf].
+  destruct (safe_table_all funs S f p Hf) as [r A].
+  destruct (proj1 (acheck_sound funs (safe_table_all funs S) p _ _ _ X) (List.length h) h _ init_astate r (inv_init e h) A)
+    as [g' [a' [I _]]].
+  exact (i_frame _ _ _ _ _ _ I).
+Qed.
+
+(* a program without a table: calls have no execution, the other constructs are as before *)
 Theorem safe_prog_preserves_old_objects_proof : forall p e h o e' h',
-  safe_prog p = true -> pexec p (e, h) o (e', h') ->
+  safe_prog p = true -> pexec [] p (e, h) o (e', h') ->
   List.length h <= List.length h' /\ forall l, l < List.length h -> nth_error h' l = nth_error h l.
 Proof.
   intros p e h o e' h' S X. unfold safe_prog in S.
   destruct (acheck p init_astate) as [r|] eqn:A; [|discriminate S].
-  destruct (acheck_sound (List.length h) h p _ _ _ X _ _ r (inv_init e h) A) as [g' [a' [I _]]].
+  assert (AS : forall f body, nth_error (@nil prog) f = Some body -> exists r, acheck body init_astate = Some r).
+  { intros f body Hn. destruct f; discriminate Hn. }
+  destruct (proj1 (acheck_sound [] AS p _ _ _ X) (List.length h) h _ init_astate r (inv_init e h) A) as [g' [a' [I _]]].
   exact (i_frame _ _ _ _ _ _ I).
 Qed.
